@@ -330,8 +330,10 @@ def _rest(ctx, P):
         ctx.check(bool(ins) and bool(g) and not L.dominated_by_cut(b, ins, g), "C16-R5", nm + ":insert-skips-empty",
                   "TrieBuilder::insert is dominated by !word.is_empty()", "TokTrie::%s inserts empty tokens into the trie" % nm, site=b.where())
         mx = [bi for bi, t in b.calls() if t["f"].get("def", "").startswith("core::cmp::max")]
-        ctx.check(bool(mx) and not L.dominated_by_cut(b, mx, g), "C16-R5", nm + ":max_token_len-skips-empty",
-                  "max_token_len is updated only for non-empty tokens", "TokTrie::%s: max_token_len update changed" % nm, site=b.where())
+        # (the `!b.is_empty()` test around the update is redundant — max(x, 0) == x — and is not required)
+        lens = [bi for bi in mx if any(a[0] == "call" and a[1].endswith("::len") for a in (b.expr(x) for x in b.blocks[bi]["term"]["args"]))]
+        ctx.check(bool(lens), "C16-R5", nm + ":max_token_len-tracks-len",
+                  "max_token_len is the running max of the token byte lengths", "TokTrie::%s: max_token_len is no longer max(_, bytes.len())" % nm, site=b.where())
         push = [bi for bi, t in b.calls() if t["f"].get("def", "").endswith("Vec::<T, A>::push") and "TokDesc" in "".join(t["aty"])]
         ext = [bi for bi, t in b.calls() if t["f"].get("def", "").endswith("::extend_from_slice")]
         ctx.check(len(push) == 1 and len(ext) == 1, "C16-R5", nm + ":offset-table", "one TokDesc push and one data append per id",
